@@ -339,7 +339,15 @@ impl<H: MsgHeader> Endpoint<H> {
         iovs: &mut [iovec],
     ) -> Result<(usize, Option<Vec<File>>)> {
         let mut fd_array = vec![0; MAX_ATTACHED_FD_ENTRIES];
-        let (bytes, fds) = self.sock.recv_with_fds(iovs, &mut fd_array)?;
+        let (bytes, fds) = self
+            .sock
+            .recv_with_fds(iovs, &mut fd_array)
+            .map_err(|e| match e.errno() {
+                // More descriptors were attached than can be received: the data has been taken
+                // off the stream already, so this must not be reported as a retryable condition.
+                libc::ENOBUFS => Error::IncorrectFds,
+                _ => e.into(),
+            })?;
 
         let files = match fds {
             0 => None,
